@@ -2,6 +2,7 @@
 mod auth;
 mod hub;
 mod seq;
+mod fidelity;
 mod fsops;
 mod provider;
 mod runs;
@@ -50,6 +51,8 @@ fn main() {
         "tasklife" => tasklife::engine_tasklife(&rt, cases, &mut out),
         "shellcap" => tasklife::engine_shellcap(&rt, cases, &mut out),
         "secrets" => secrets::engine_secrets(&rt, cases, &mut out),
+        "fidelity" => fidelity::engine_fidelity(&rt, cases, &mut out),
+        "roundtrip" => fidelity::engine_roundtrip(cases, &mut out),
         "auth" => auth::engine_auth(cases, &mut out),
         "wslock" => wslock::engine_wslock(&rt, cases, &mut out),
         "runs" => {
